@@ -20,7 +20,7 @@ from repolib import classify, run_trace, tlc_histories
 
 LEVEL = "model_checking"
 STATE_TAGS = {"Unrecoverable", "Unreadable", "NotBroughtBack"}
-STEP_TAGS = {"RealReadFails", "CheckNotClean", "KeepDelete"}
+STEP_TAGS = {"RealReadFails", "CheckNotClean", "KeepDelete", "PruneFails"}
 KD = 3600
 
 
